@@ -114,6 +114,13 @@ CHECKS = {
    text="For the 19 computing countries validate(fields, compute(fields)) holds and any other digit value is rejected on every probe; for all 119 countries with positions a BBAN built by from_components, read back through the accessors and rebuilt is reproduced exactly with zero filler, and passes the BBAN-level national check; BBAN.random returns only through from_components.",
    note="Probe family: every accepted position varied over its class from a base vector plus seeded random fills; not all field values.",
    design="3/C09"),
+ "C13": dict(
+   technique="non-determinism source scan over the call graph reachable from the random entry points (scope-aware) + abstract evaluation of BBAN.random per country with modelled Random / Rstr, pinned components checked on every returned value + return-site checks",
+   text="Every function reachable from IBAN.random/BBAN.random and the loaders that order their data are scanned for unseeded Random, module-level random functions, Rstr without the caller's generator, hash/id/time/urandom, set iteration, unsorted listings; "
+        "country patterns are checked to stay inside what rstr expands through the generator; BBAN.random is evaluated abstractly for 119 countries x {bank, branch, account} x {registry, no registry} x {exact, short, leading zeros, too long}: "
+        "each returned BBAN must carry the pinned value at its published range (found the PL/SI override and the silent truncation); both random functions return only through validating constructors.",
+   note="Retry loops are evaluated for two iterations; random.choice over large lists is represented by one entry per (bank-code length, has-BIC) class; 'for every seed a valid result' is decided as must-pass-through validation.",
+   design="3/C13"),
 }
 NA_REASON = "check not built yet (work in progress; see DESIGN.md section 3 for the plan)"
 
